@@ -424,8 +424,20 @@ def lower_records(trees, report, unknown=None):
             return ast.copy_location(ast.Tuple(elts=elts, ctx=ast.Load()), call)
 
         for rel, tree in trees.items():
+            # module-level names bound once to a construction of K (constants of the record type)
+            mod_typed, mod_seq, mod_ok = _module_record_facts(tree, K, trees, rel)
+            if not mod_ok:
+                mod_typed, mod_seq = set(), set()
             for q, fnode, cls in functions_of(tree):
-                typed = set()
+                locals_stored = {x.id for x in ast.walk(fnode) if isinstance(x, ast.Name) and isinstance(x.ctx, (ast.Store, ast.Del))}
+                typed = set(mod_typed) - {a.arg for a in fnode.args.args + fnode.args.kwonlyargs + fnode.args.posonlyargs} - locals_stored
+                lt = _loop_typed(fnode, K, typed, mod_seq - locals_stored, returns)
+                # a loop variable is typed only if every store to it is such a loop
+                for v in lt:
+                    stores = [x for x in ast.walk(fnode) if isinstance(x, ast.Name) and x.id == v and isinstance(x.ctx, (ast.Store, ast.Del))]
+                    loops_ = [n for n in ast.walk(fnode) if isinstance(n, (ast.For, ast.comprehension)) and isinstance(n.target, ast.Name) and n.target.id == v]
+                    if len(stores) == len(loops_) and all((isinstance(n.iter, ast.Name) and n.iter.id in mod_seq) or isinstance(n.iter, (ast.Tuple, ast.List)) for n in loops_):
+                        typed.add(v)
                 for a in fnode.args.args + fnode.args.kwonlyargs + fnode.args.posonlyargs:
                     if _ann_is(a.annotation, K) or param_types.get((fnode.name, cls is not None, a.arg)) == K:
                         typed.add(a.arg)
@@ -441,8 +453,9 @@ def lower_records(trees, report, unknown=None):
 
                 class T(ast.NodeTransformer):
                     def visit_Attribute(self, n):
+                        is_rec = _is_record_value(n.value, K, typed, returns)
                         self.generic_visit(n)
-                        if n.attr in fields and isinstance(n.ctx, ast.Load) and (_is_record_value(n.value, K, typed, returns) or unique[n.attr]):
+                        if n.attr in fields and isinstance(n.ctx, ast.Load) and (is_rec or _is_record_value(n.value, K, typed, returns) or unique[n.attr]):
                             changed.add(rel)
                             return ast.copy_location(ast.Subscript(value=n.value, slice=ast.copy_location(ast.Constant(value=fields.index(n.attr)), n), ctx=ast.Load()), n)
                         return n
@@ -462,7 +475,39 @@ def lower_records(trees, report, unknown=None):
                         return n
 
                 T().visit(fnode)
-            # module-level and class-level statements outside functions: constructions only
+            # module-level and class-level statements outside functions: constructions, and fields of constructions /
+            # of the module-level constants
+            typed = set(mod_typed)
+            if not mod_ok:
+                ast.fix_missing_locations(tree)
+                continue
+
+            class TM(ast.NodeTransformer):
+                def visit_FunctionDef(self, n):
+                    return n
+
+                visit_AsyncFunctionDef = visit_Lambda = visit_FunctionDef
+
+                def visit_Attribute(self, n):
+                    is_rec = _is_record_value(n.value, K, typed, returns)
+                    self.generic_visit(n)
+                    if n.attr in fields and isinstance(n.ctx, ast.Load) and is_rec:
+                        changed.add(rel)
+                        return ast.copy_location(ast.Subscript(value=n.value, slice=ast.copy_location(ast.Constant(value=fields.index(n.attr)), n), ctx=ast.Load()), n)
+                    return n
+
+                def visit_Call(self, n):
+                    self.generic_visit(n)
+                    if isinstance(n.func, ast.Name) and n.func.id == K:
+                        t = construct(n)
+                        if t is not None:
+                            changed.add(rel)
+                            return t
+                    return n
+
+            for st in tree.body:
+                if st is not info["node"] and not isinstance(st, (ast.FunctionDef, ast.AsyncFunctionDef)):
+                    TM().visit(st)
             ast.fix_missing_locations(tree)
         # drop the definition when no constructor call is left
         left = any(isinstance(n, ast.Call) and isinstance(n.func, ast.Name) and n.func.id == K for t in trees.values() for n in ast.walk(t))
@@ -496,6 +541,88 @@ def _other_owner(trees, f, K, recs):
             if isinstance(n, ast.Attribute) and n.attr == f and isinstance(n.value, ast.Name) and n.value.id in ("self", "cls"):
                 return True
     return False
+
+
+def _module_record_facts(tree, K, trees, rel):
+    """(mod_typed, mod_seq, ok): module-level names bound once to a construction of K; module-level names bound once to
+    a tuple / list display of such constructions (or of such names); ok = every construction of K outside functions is
+    one of these two or the receiver of an attribute, and the sequences are only ever iterated (in this module, not
+    imported elsewhere)"""
+    binds = {}
+    for st in tree.body:
+        if isinstance(st, ast.Assign) and len(st.targets) == 1 and isinstance(st.targets[0], ast.Name):
+            binds.setdefault(st.targets[0].id, []).append(st)
+
+    def once(nm):
+        return len(binds.get(nm, [])) == 1 and sum(1 for n in ast.walk(tree) if isinstance(n, ast.Name) and n.id == nm and isinstance(n.ctx, (ast.Store, ast.Del))) == 1 and not any(isinstance(g_, (ast.Global, ast.Nonlocal)) and nm in g_.names for g_ in ast.walk(tree))
+
+    def isK(e):
+        return isinstance(e, ast.Call) and isinstance(e.func, ast.Name) and e.func.id == K
+
+    mod_typed = {nm for nm, sts in binds.items() if once(nm) and isK(sts[0].value)}
+    mod_seq = {nm for nm, sts in binds.items() if once(nm) and isinstance(sts[0].value, (ast.Tuple, ast.List)) and sts[0].value.elts and all(isK(e) or (isinstance(e, ast.Name) and e.id in mod_typed) for e in sts[0].value.elts)}
+    ok = True
+    # constructions outside functions
+    pm = {}
+    for n in ast.walk(tree):
+        for c in ast.iter_child_nodes(n):
+            pm[id(c)] = n
+    infunc = set()
+    for n in ast.walk(tree):
+        if isinstance(n, (ast.FunctionDef, ast.AsyncFunctionDef, ast.Lambda)):
+            for x in ast.walk(n):
+                if x is not n:
+                    infunc.add(id(x))
+    for n in ast.walk(tree):
+        if isK(n) and id(n) not in infunc:
+            par = pm.get(id(n))
+            if isinstance(par, ast.Assign) and par.value is n and len(par.targets) == 1 and isinstance(par.targets[0], ast.Name) and par.targets[0].id in mod_typed:
+                continue
+            if isinstance(par, (ast.Tuple, ast.List)) and isinstance(pm.get(id(par)), ast.Assign) and pm[id(par)].value is par and len(pm[id(par)].targets) == 1 and isinstance(pm[id(par)].targets[0], ast.Name) and pm[id(par)].targets[0].id in mod_seq:
+                continue
+            if isinstance(par, ast.Attribute) and par.value is n:
+                continue
+            ok = False
+    # module-level record constants used as elements of other containers / passed around outside functions
+    for n in ast.walk(tree):
+        if isinstance(n, ast.Name) and isinstance(n.ctx, ast.Load) and n.id in mod_typed and id(n) not in infunc:
+            par = pm.get(id(n))
+            if isinstance(par, ast.Attribute) and par.value is n:
+                continue
+            if isinstance(par, (ast.Tuple, ast.List)) and isinstance(pm.get(id(par)), ast.Assign) and len(pm[id(par)].targets) == 1 and isinstance(pm[id(par)].targets[0], ast.Name) and pm[id(par)].targets[0].id in mod_seq:
+                continue
+            ok = False
+    # the sequences are only iterated
+    for n in ast.walk(tree):
+        if isinstance(n, ast.Name) and isinstance(n.ctx, ast.Load) and n.id in mod_seq:
+            par = pm.get(id(n))
+            if isinstance(par, ast.For) and par.iter is n and isinstance(par.target, ast.Name):
+                continue
+            if isinstance(par, ast.comprehension) and par.iter is n and isinstance(par.target, ast.Name):
+                continue
+            ok = False
+    for r2, t2 in trees.items():
+        if r2 == rel:
+            continue
+        for n in ast.walk(t2):
+            if isinstance(n, ast.ImportFrom) and any(a.name in mod_typed | mod_seq for a in n.names):
+                ok = False
+            if isinstance(n, ast.Attribute) and n.attr in mod_typed | mod_seq:
+                ok = False
+    return mod_typed, mod_seq, ok
+
+
+def _loop_typed(fnode_or_tree, K, typed, mod_seq, returns):
+    """loop / comprehension variables that range over a sequence of K values"""
+    out = set()
+    for n in ast.walk(fnode_or_tree):
+        if isinstance(n, (ast.For, ast.comprehension)) and isinstance(n.target, ast.Name):
+            it = n.iter
+            if isinstance(it, ast.Name) and it.id in mod_seq:
+                out.add(n.target.id)
+            elif isinstance(it, (ast.Tuple, ast.List)) and it.elts and all(_is_record_value(e, K, typed, returns) for e in it.elts):
+                out.add(n.target.id)
+    return out
 
 
 def _is_record_value(e, K, typed, returns):
